@@ -201,6 +201,12 @@ Tr_C09_size(A, B) ==
          IN IF o \in DOMAIN cfg.split
             THEN cfg.split[o][1] <= n /\ n <= cfg.split[o][2] /\ n >= cfg.minPer
             ELSE cfg.minPer <= n /\ n <= Card(Machines) \div cfg.parts
+(* a reservation is made once: the machines it consists of (idle for it, or  *)
+(* busy with one of its workflow's tasks) never grow afterwards             *)
+Members(X, o) == IdleOf(X, o) \cup {X.procs[p].m : p \in {q \in LivePids(X, "TP") : q[2] = o /\ q[3] > 0 /\ X.procs[q].started}}
+Tr_C09_fixed(A, B) ==
+    cfg.alg = "batch" =>
+      \A o \in DOMAIN A.cl.idle \cap DOMAIN B.cl.idle : Members(B, o) \subseteq Members(A, o)
 Tr_C09_released(A, B) ==
     \A o \in A.sch.queue \ B.sch.queue : o \notin DOMAIN B.cl.idle
 
@@ -361,7 +367,7 @@ InvHolds(X, n) ==
       [] n = "C15.reported" -> Inv_C15_reported(X)
 TrNames == <<"C01.noreclaim", "C02.boundary", "C03.precedence", "C03.exact", "C04.once",
              "C06.runtime", "C07.deposit", "C07.release", "C08.begin", "C08.status",
-             "C08.ingest", "C08.ontime", "C08.finish", "C09.onlyReserved", "C09.exclusive", "C09.size",
+             "C08.ingest", "C08.ontime", "C08.finish", "C09.onlyReserved", "C09.exclusive", "C09.size", "C09.fixed",
              "C09.released", "C12.rowcount", "C15.flag", "C17.planned",
              "C18.step", "C18.done", "C18.refused">>
 TrHolds(A, B, n) ==
@@ -375,6 +381,7 @@ TrHolds(A, B, n) ==
       [] n = "C08.finish" -> Tr_C08_finish(A, B)
       [] n = "C09.onlyReserved" -> Tr_C09_onlyReserved(A, B) [] n = "C09.exclusive" -> Tr_C09_exclusive(A, B)
       [] n = "C09.size" -> Tr_C09_size(A, B) [] n = "C09.released" -> Tr_C09_released(A, B)
+      [] n = "C09.fixed" -> Tr_C09_fixed(A, B)
       [] n = "C12.rowcount" -> Tr_C12_rowcount(A, B) [] n = "C15.flag" -> Tr_C15_flag(A, B)
       [] n = "C17.planned" -> Tr_C17_planned(A, B)
       [] n = "C18.step" -> Tr_C18_step(A, B) [] n = "C18.done" -> Tr_C18_done(A, B)
